@@ -31,6 +31,9 @@ EXTRA = [
     ('functor', 'A(x) :- T(x, y);\nB(x) :- S(x);\nF(x) :- A(x), A(x + 1);\nG := F(A: B);\nH(x) :- G(x), F(x);\n', ['G', 'H']),
     ('if_case', 'P(x, if x > 1 then "big" else if x == 1 then "one" else "small") :- T(x, y);\n', ['P']),
     ('flags', '@DefineFlag("limit", "3");\n@DefineFlag("name", "a b");\nP(x, FlagValue("name")) :- T(x, y), x < ToInt64(FlagValue("limit"));\n', ['P']),
+    ('ground_shared_with', 'D(1, 2); D(2, 3); D(3, 4); D(1, 5);\nC(x) distinct :- D(x, y);\nB(x, n? += 1) distinct :- C(x), D(x, y);\n@Ground(G);\nG(x, m? Max= n) distinct :- B(x, n:);\nP(x, m, n) :- G(x, m:), B(x, n:);\nP2(x, m, n) :- B(x, n:), G(x, m:);\n', ['P', 'P2']),
+    ('untyped_lists', 'P(x: 1, l: []);\nQ(Size([]));\nR({a: [null]});\nS(x) :- x in [];\n', ['P', 'Q', 'R', 'S']),
+    ('in_as_value', 'P(x, b) :- T(x, l), b == (x in l);\nQ(x) :- T(x, l), !(x in l);\nR(x, if x in l then 1 else 0) :- T(x, l);\nU(x) :- T(x, l), (x in l) || x > 1;\n', ['P', 'Q', 'R', 'U']),
     ('order_limit', '@OrderBy(P, "col0 desc", "col1");\n@Limit(P, 2);\nP(x, y) :- T(x, y);\nQ(x) :- P(x, y);\n', ['P', 'Q']),
 ]
 
